@@ -8,7 +8,7 @@
 (* of nodes incl. operator tokens), and a transformer overriding a class   *)
 (* that does not occur is the identity.                                    *)
 (***************************************************************************)
-EXTENDS OData, Visitor, Json
+EXTENDS OData, Visitor, Rewrite, Json
 CONSTANTS MaxOps, Wide
 VARIABLES t, n, ov
 
@@ -53,9 +53,25 @@ OverSet == { ov[i] : i \in 1..Len(ov) }
 
 EveryNodeOnce == ~HasHole(t) => Len(VisitLog(t, {})) = FullSize(t)
 AbsentOverrideIsIdentity == (IsCase /\ ov # <<>> /\ ov[1] \notin Classes(t)) => ReplaceKind(t, ov[1]) = t
+\* The shipped single-purpose transformers change exactly what their handlers change: the expected results of the
+\* alias rewriter (Rewrite!Subst) and of the identifier stripper (Rewrite!Relative) on trees where lambda scopes nest,
+\* re-bind and end - exported once, next to the generated cases.
+ib == Id0("i")  tot == Id0("total")
+Sigma == (ib :> Id0("index")) @@ (tot :> Id0("price_total")) @@ (Attr(ib, "qty") :> Id0("iq"))
+ScopeTrees == << Coll(Id0("lines"), "any", Lam(ib, Bool("and", Coll(Attr(ib, "parts"), "any", Lam(ib, Cmp("gt", Attr(ib, "qty"), one))), Cmp("gt", Attr(ib, "price"), tot)))),
+                 Bool("and", Cmp("eq", ib, one), Coll(Id0("items"), "any", Lam(ib, Cmp("eq", ib, tot)))),
+                 Bool("or", Coll(Id0("items"), "all", Lam(ib, Cmp("eq", Attr(ib, "qty"), one))), Cmp("eq", Attr(ib, "qty"), ib)),
+                 Coll(Id0("xs"), "any", Lam(Id0("x"), Bool("and", Coll(Attr(Id0("x"), "ys"), "any", Lam(ib, Cmp("eq", ib, tot))), Cmp("eq", ib, Attr(Id0("x"), "total"))))),
+                 Coll(Attr(ib, "qty"), "any", Lam(tot, Coll(Attr(tot, "zs"), "all", Lam(tot, Bool("or", Cmp("lt", tot, ib), Coll(Attr(tot, "ws"), "any", None)))))),
+                 Cmp("eq", Call(Id0("i"), <<Named(ib, ib), tot>>), Call(Id(<<"i">>, "total"), <<Attr(ib, "qty")>>)) >>
+Txt(x) == Spell(Pr(x, "min"), " ")
+ScopeRecord == ([k |-> "scope", sigma |-> [j \in 1..3 |-> CASE j = 1 -> <<Txt(ib), Txt(Sigma[ib])>> [] j = 2 -> <<Txt(tot), Txt(Sigma[tot])>>
+                                                                          [] OTHER -> <<Txt(Attr(ib, "qty")), Txt(Sigma[Attr(ib, "qty")])>>],
+                              cases |-> [j \in 1..Len(ScopeTrees) |-> [tree |-> ScopeTrees[j], aliased |-> Subst(ScopeTrees[j], Sigma),
+                                                                       relative |-> Relative(ScopeTrees[j], ib)]]])
 Export == PrintT(ToJson(IF IsCase
             THEN [k |-> "case", tree |-> t, over |-> ov, nops |-> n,
                   transformed |-> IF ov = <<>> THEN t ELSE ReplaceKind(t, ov[1]),
                   swap |-> IF ov # <<>> /\ ov[1] \in DOMAIN SwapTok THEN SwapTok[ov[1]] ELSE ""]
-            ELSE [k |-> "partial"]))
+            ELSE IF t = E THEN ScopeRecord ELSE [k |-> "partial"]))
 =============================================================================
